@@ -120,3 +120,24 @@ fn(S + "remove#scopefunc", cls="scoped_session", props=["C52"], returns="none",
             "forall(lambda q: implies(q is not " + SKEY + ", dhas(" + SREG + ", q) == old(dhas(" + SREG + ", q)) and implies(dhas(" + SREG + ", q), "
             "dget(" + SREG + ", q) is old(dget(" + SREG + ", q)))))"],
    modifies=["contents(" + SREG + ")", "dget(" + SREG + ", " + SKEY + ")._g_closed"])
+
+# scoped_session.__call__(**kw): the scope's Session -- the existing one, or a new one (configured by kw only when the scope has
+# none yet; asking for a configured Session while one exists is refused, not silently answered with the old one)
+CLASSES["scoped_session"].fields.update({"_support_async": "bool"})
+CLASSES["Session"].fields.update({"_is_asyncio": "bool"})
+fn("orm/scoping.py::scoped_session.session_factory@call", abstract=True, params=[], returns="Session", fresh_result=True, modifies=[],
+   may_raise={"Exception": "True"}, notes="the session factory called with the keyword arguments")
+KWT = "truth(kw)"
+fn(S + "__call__#threadlocal", cls="scoped_session", props=["C52"], returns="Session",
+   types={"expr:self.registry": "ThreadLocalRegistry", "expr:" + TLV: "Session", "sess": "Session", "kw": "v"},
+   consts={"sa_exc.InvalidRequestError": "class"},
+   callees={"self.session_factory": dict(fn="orm/scoping.py::scoped_session.session_factory@call", args=[]),
+            "self.registry": dict(fn=TL + "__call__", recv="self.registry", args=[], returns="Session"),
+            "warn_deprecated": "noop"},
+   requires=["isinst(self.registry, ThreadLocalRegistry)", "implies(" + THAS + ", isinst(" + TLV + ", Session))"],
+   raises={"InvalidRequestError": KWT + " and " + THAS},
+   may_raise={"Exception": "True"},
+   ensures=[THAS + " and " + TLV + " is result",
+            # repeated calls within one scope return the same Session
+            "implies(old(" + THAS + "), result is old(" + TLV + "))"],
+   modifies=[TLV])
